@@ -56,6 +56,8 @@ type EpisodeResult struct {
 	Nontrivial   bool        `json:"nontrivial,omitempty"`
 	Evals        int         `json:"evals,omitempty"`
 	Trace        []string    `json:"trace,omitempty"`
+	Recycle      bool        `json:"recycle,omitempty"`
+	RaceText     string      `json:"raceText,omitempty"`
 
 	// filled by the orchestrator
 	Crash string `json:"crash,omitempty"` // the worker process died during this episode: its last stderr
@@ -117,7 +119,7 @@ func startWorker(cfg poolCfg) (*worker, error) {
 	cmd := exec.Command(cfg.bin, "-test.run", "^TestWorker$", "-test.timeout", "0")
 	cmd.Env = append(os.Environ(), "VERIF_WORKER=1", "GOMAXPROCS="+strconv.Itoa(cfg.gomaxprocs), "GOTRACEBACK=single")
 	if cfg.race {
-		cmd.Env = append(cmd.Env, "GORACE=halt_on_error=0 history_size=2 log_path="+cfg.raceLogDir+"/race")
+		cmd.Env = append(cmd.Env, "GORACE=halt_on_error=0 atexit_sleep_ms=0 history_size=7 log_path="+cfg.raceLogDir+"/race")
 		cmd.Env = append(cmd.Env, "VERIF_RACELOG="+cfg.raceLogDir+"/race")
 	}
 	cmd.ExtraFiles = []*os.File{pw}
@@ -223,6 +225,10 @@ func runJobs(cfg poolCfg, n int, jobs []Job, sink func(*Job, *EpisodeResult)) er
 					}
 				}
 				res, died, diag := w.do(job)
+				if !died && res.Recycle {
+					w.stop()
+					w = nil
+				}
 				if died {
 					w.stop()
 					w = nil
